@@ -566,7 +566,81 @@ def b_eigensolve(V, cfg):
     return Setup(m, sigs, notes=["EigenSolve: A defined from free eigen-data (pre-image); LAPACK = oracle returning that data"])
 
 
-BUILDERS = dict(eigensolve=b_eigensolve, einsum=b_einsum, mathgeneral=b_mathgeneral, concat=b_concat, scaling=b_scaling, complex=b_complex,
+class _SingularAdjointOracle:
+    """Stand-in for the per-mode solver of EigenSolve._sparse_eigvec_sens: the system (A - lambda_i B)^T v = r is singular
+    by construction (and consistent, r being B-orthogonal to the mode); the real LU only succeeds through rounding.
+    Contract: ANY solution - fresh unknowns constrained by op(Z) x = r.  The module removes the null-space component
+    itself, so its result must not depend on which solution was returned."""
+    def __init__(self):
+        self.Z = None
+        self.n_update = 0
+
+    def update(self, Z):
+        self.Z = Z
+        self.n_update += 1
+        return self
+
+    def solve(self, rhs, x0=None, trans="N"):
+        from symx import oracles, ctx as _ctx
+        from symx.array import is_complex_content as _icc
+        _ctx.current().stubs.add("adjoint solver of the singular system (A - lambda B): contract oracle returning ANY solution")
+        M = oracles._op(self.Z, trans)
+        rhs = np.asarray(rhs)
+        x = oracles.fresh_like(rhs.shape, _icc(M) or _icc(rhs), "vp")
+        oracles.add_constraint_eq(M @ x, rhs)
+        return x
+
+
+def b_eigensolve_sparse(V, cfg):
+    """Sparse symmetric EigenSolve, n = 3, nmodes = 2 (real ARPACK needs k < n for the replay).
+    A := Q diag(W) Q^T with Q = G01(t) G12(s) (two Givens rotations with rational parameters), 0 < W0 < W1 < W2 so
+    that the two eigenvalues closest to sigma = 0 are W0, W1 in ascending order (what eigsh returns); generalised:
+    B := diag(b) > 0 and A := B^(1/2)-free form  A = Q^-T diag(W) Q^-1 with Q^T B Q = I is avoided - B = I only."""
+    import pymoto as pym
+    from pymoto.modules import linalg as _la
+    n, k = 3, 2
+    W = V.reals("W", n, positive=True, default=None)
+    if not V.symbolic:
+        W = np.array([float(V.env.get("W_%d" % i, 0.5 + i)) for i in range(n)])
+    t = V.real("t", default=0.4)
+    s_ = V.real("s", default=-0.3) if cfg.get("rotations", 2) == 2 else (V.const(0) if V.symbolic else 0.0)
+
+    def giv(p, a, b):
+        den = 1 + p * p
+        c_, s2 = (1 - p * p) / den, 2 * p / den
+        G = np.array([[1 if i == j else 0 for j in range(n)] for i in range(n)], dtype=object if V.symbolic else float)
+        G[a, a], G[a, b], G[b, a], G[b, b] = c_, -s2, s2, c_
+        return G
+    Q = giv(t, 0, 1) @ giv(s_, 1, 2)
+    D = np.array([[W[i] if i == j else 0 for j in range(n)] for i in range(n)], dtype=object if V.symbolic else float)
+    A = Q @ D @ Q.T
+    if V.symbolic:
+        V.assume(W[0] < W[1], "0 < W0 < W1 < W2: the two eigenvalues closest to sigma = 0, ascending (eigsh contract)")
+        V.assume(W[1] < W[2])
+        A = wrap(np.asarray(A, dtype=object))
+    sA = pym.Signal("A", _mk_sparse(V, A))
+    m = pym.EigenSolve([sA], nmodes=k, hermitian=True)
+    if V.symbolic:
+        from symx import factor
+        c = V.c
+        c.seed_nonzero = True
+        factor.register("eig", (wrap(np.asarray(W, dtype=object)), wrap(np.asarray(Q, dtype=object))))
+        if not hasattr(_la, "_symx_real_auto"):
+            _la._symx_real_auto = _la.auto_determine_solver
+        real_auto = _la._symx_real_auto
+
+        def auto(Z, *a, **kw):
+            if kw.get("ispositivedefinite") is False:       # the call inside _sparse_eigvec_sens
+                return _SingularAdjointOracle()
+            return real_auto(Z, *a, **kw)
+        _la.auto_determine_solver = auto
+    elif hasattr(_la, "_symx_real_auto"):
+        _la.auto_determine_solver = _la._symx_real_auto
+    return Setup(m, [sA], seed_kinds={}, notes=["sparse EigenSolve: A = Q diag(W) Q^T (pre-image), ARPACK = oracle, singular adjoint "
+                                              "systems answered by a contract oracle (any solution)"])
+
+
+BUILDERS = dict(eigensolve_sparse=b_eigensolve_sparse, eigensolve=b_eigensolve, einsum=b_einsum, mathgeneral=b_mathgeneral, concat=b_concat, scaling=b_scaling, complex=b_complex,
                 aggregation=b_aggregation, assemble=b_assemble, elemop=b_elemop, nodalop=b_nodalop,
                 filterconv=b_filterconv, densityfilter=b_densityfilter, overhang=b_overhang,
                 linsolve=b_linsolve, inverse=b_inverse, sysofeq=b_sysofeq, statcond=b_statcond)
@@ -703,6 +777,9 @@ def module_grid(tier):
     add("eigensolve", "n2-symmetric-vectors-only", sym=True, seeded=[1], max_paths=40, twin_abs=True)
     if not q:
         add("eigensolve", "n2-generalised", gen=True, max_paths=40, twin_abs=True)
+    add("eigensolve_sparse", "n3-k2-vectors", seeded=[1], max_paths=60, twin_abs=True, rotations=1)
+    add("eigensolve_sparse", "n3-k2-values", seeded=[0], max_paths=60, twin_abs=True)
+    add("eigensolve_sparse", "n3-k2-both", max_paths=60, twin_abs=True, rotations=1)
     add("statcond", "n3-m0-f12", n=3, main=[0], free=[1, 2], mclass="symmetric")
     add("statcond", "n3-m02-f1", n=3, main=[0, 2], free=[1], mclass="symmetric")
     add("statcond", "n4-m0-f12", n=4, main=[0], free=[1, 2], mclass="symmetric")
